@@ -98,6 +98,8 @@ func (t *Toks) Next() string {
 	t.rest = t.rest[1:]
 	return x
 }
+func (t *Toks) unread(x string) { t.rest = append([]string{x}, t.rest...) }
+
 func (t *Toks) Int() int {
 	v, err := strconv.Atoi(t.Next())
 	if err != nil {
